@@ -1,4 +1,4 @@
-add("C15", "checks/c15_bounds.c", ["default-asan", "dtostre-asan", "default-plain", "c89-plain"], ["default-asan", "dtostre-asan", "default-plain", "dtostre-plain", "c89-plain"],
+add("C15", "checks/c15_bounds.c", ["default-asan", "dtostre-asan", "default-plain", "c89-plain", "optall-plain"], ["default-asan", "dtostre-asan", "default-plain", "dtostre-plain", "c89-plain", "optall-plain", "optall-asan"],
     "cases = one value/text formatted into caller buffers of EVERY length 0..40 (exact-size malloc under ASan, guard bytes in the "
     "gcc build): SCPI_NumberToStr over every unit-table row and special-number name, SCPI_DoubleToStr/FloatToStr, SCPI_dtostre with "
     "precision 1..15 and all flag combinations, SCPI_ParamCopyText through real dispatch on quoted texts with doubled quotes around the "
